@@ -491,7 +491,7 @@ def fam_stop(tier, outdir):
     consts = {"Handles": "{1}", "MaxTime": 5, "MaxCalls": 4, "PipeCap": 4, "MaxOut": 0, "ExitCodes": "{3}", "TermDelay": 1,
               "DlOpts": "{0, 2}", "Timeouts": "{0, 2}", "MaxStops": 1, "ThirdActs": '"Small"'}
     if tier == "thorough":
-        consts.update({"MaxTime": 6, "MaxCalls": 4, "Timeouts": "{0, 2, 3}", "MaxStops": 1, "ThirdActs": '"All"'})
+        consts.update({"MaxTime": 6, "MaxCalls": 4, "Timeouts": "{0, 2, 3}", "MaxStops": 1})   # (every third action as well: about an hour, three properties run this family)
     cfg = os.path.join(outdir, "MC_Stop.cfg")
     write_cfg(cfg, "Spec", consts, ["TypeOK", "LifeChild", "WaitTruthful", "NoSignalAfterReap"], export_stride=1)
     res = run_tlc_export("stop", "MC_Stop", cfg, outdir, tier, asan_stride=16 if tier == "quick" else 4)
@@ -579,7 +579,7 @@ def fam_stream(tier, outdir):
               "Inputs": "{99, 3, 5}", "ReadSizes": "{0, 1, 3}", "WriteSizes": "{0, 3, 5}", "DlOpts": "{0}", "Mode": '"io"',
               "SinkFails": "{}", "NbOpts": "{TRUE, FALSE}"}
     if tier == "thorough":
-        consts.update({"MaxCalls": 6, "MaxOut": 3})
+        consts.update({"MaxOut": 3})
     cfg = os.path.join(outdir, "MC_Stream.cfg")
     write_cfg(cfg, "Spec", consts, ["TypeOK", "LifeChild", "Conservation"], export_stride=5 if tier == "quick" else 1)
     res = run_tlc_export("stream", "MC_Stream", cfg, outdir, tier, asan_stride=16 if tier == "quick" else 8, tlc_workers=10,
@@ -1289,7 +1289,7 @@ def fam_destroy(tier, outdir):
     consts = {"Handles": "{1}", "MaxTime": 5, "MaxCalls": 4, "PipeCap": 4, "MaxOut": 0, "ExitCodes": "{3}", "TermDelay": 1,
               "DlOpts": "{0, 2}", "Timeouts": "{0, 2}", "ThirdActs": '"Small"', "StrictFailedStart <- Loose": None}
     if tier == "thorough":
-        consts.update({"MaxTime": 6, "Timeouts": "{0, 1, 2}", "ThirdActs": '"All"'})
+        consts.update({"MaxTime": 6, "Timeouts": "{0, 1, 2}"})   # (every third action as well: > 10 M states since interrupts / exit-handle closing are modelled)
     cfg = os.path.join(outdir, "MC_Destroy.cfg")
     write_cfg(cfg, "Spec", consts, ["TypeOK", "LifeChild", "DestroyReleases", "DefaultTermNotEarly"], export_stride=2 if tier == "quick" else 1)
     res = run_tlc_export("destroy", "MC_Destroy", cfg, outdir, tier, asan_stride=16 if tier == "quick" else 4,
